@@ -65,7 +65,7 @@ def id_of(d):
     return d.split('|')[0] if isinstance(d, str) else None
 
 
-MAXSTEPS = [0]
+MAXSTEPS = [0, 0]
 
 
 def run_conv(rec, case):
@@ -81,7 +81,8 @@ def run_conv(rec, case):
     # the server's answer to the upgrade probe gets lost: the threaded
     # client gives the attempt up after its request time-out and the
     # conversation goes on over polling, as if no upgrade had been tried
-    lost_probe = pair in ('TT', 'TA') and transport == 'upgrade' and \
+    lost_probe = pair in ('TT', 'TA', 'AA', 'AT', 'AH', 'AN') and \
+        transport == 'upgrade' and \
         pi >= 1 and pt >= 1 and case['i'] % 3 == 0
     w = cli.PAIRS[pair]({'ping_interval': pi, 'ping_timeout': pt,
                          'async_handlers': async_handlers},
@@ -127,10 +128,14 @@ def run_conv(rec, case):
     # a legitimate conversation takes < 250 000 scheduling steps (the evidence
     # records the maximum seen); far more than that in bounded virtual time
     # is a livelock (e.g. polls answered at once, again and again)
+    # ... and at most a few thousand at one and the same virtual instant
+    # (maximum seen: see the evidence)
     if getattr(w, 'sched', None) is not None:
         w.sched.max_steps = 1500000
+        w.sched.instant_budget = 150000
     if getattr(w, 'loop', None) is not None:
         w.loop.max_iterations = 1500000
+        w.loop.instant_budget = 150000
     try:
         c, sim = w.cli, w.sim
         tr = {'polling': ['polling'], 'websocket': ['websocket'],
@@ -320,6 +325,11 @@ def run_conv(rec, case):
         if n > MAXSTEPS[0]:
             MAXSTEPS[0] = n
             rec.extra['max_scheduling_steps'] = n
+        m = max(getattr(sch, 'max_instant', 0) if sch is not None else 0,
+                getattr(getattr(w, 'loop', None), 'max_instant', 0))
+        if m > MAXSTEPS[1]:
+            MAXSTEPS[1] = m
+            rec.extra['max_steps_at_one_instant'] = m
         w.teardown()
 
 
